@@ -90,7 +90,11 @@ class UnusedTranslator:
                 ASTType.Aggregate,
             ):
                 for elem in stm.head.elements:
-                    self._add_usage(elem.condition)
+                    if stm.head.ast_type == ASTType.HeadAggregate:
+                        # the condition of a head aggregate element is a single conditional literal
+                        self._add_usage_stm(elem.condition)
+                    else:
+                        self._add_usage(elem.condition)
             if stm.ast_type == ASTType.Rule and stm.head.ast_type in (
                 ASTType.Disjunction,
                 ASTType.Aggregate,
